@@ -769,7 +769,48 @@ def r12_18(chk):
     chk.floor("R12.18", 1, "get_stop_indices")
 
 
+SEQ_LEVEL = {"trim_stop_codons": "trim_stop_codon", "get_translation": "get_translation", "has_terminal_stop": "has_terminal_stop"}
+
+
+def r12_19(chk):
+    chk.rule("R12.19", "an option means the same at every entry point: a collection / alignment method that delegates to the per-sequence method of the same purpose (trim_stop_codons -> trim_stop_codon, get_translation -> get_translation, has_terminal_stop -> has_terminal_stop) hands every option the two have in common to it unchanged -- dropped, the per-sequence default applies (strict=False: a non-modulo-3 sequence after one with a stop is silently accepted); hard-wired, the caller's choice is ignored (incomplete_ok=True: '???' instead of an error)")
+    seq_params = {}
+    for rel in ("core/sequence.py", "core/new_sequence.py"):
+        sm = chk.repo.module(rel)
+        for q, fn in sm.all_functions():
+            nm = q.split(".")[-1]
+            if nm in SEQ_LEVEL.values():
+                seq_params.setdefault((rel.startswith("core/new"), nm), set()).update(params_of(fn))
+    n = 0
+    for rel in ("core/alignment.py", "core/new_alignment.py"):
+        m = chk.repo.module(rel)
+        new = rel.startswith("core/new")
+        for q, fn in m.all_functions():
+            nm = q.split(".")[-1]
+            if nm not in SEQ_LEVEL or "." not in q:
+                continue
+            target = SEQ_LEVEL[nm]
+            common = (set(params_of(fn)) - {"self", "kwargs"}) & seq_params.get((new, target), set())
+            calls = [c for c in walk_no_nested(fn) if isinstance(c, ast.Call) and isinstance(c.func, ast.Attribute) and c.func.attr == target and not (isinstance(c.func.value, ast.Name) and c.func.value.id in ("self", "super")) and "super()" not in norm(c.func.value)]
+            for c in calls:
+                passed = {}
+                for kw in c.keywords:
+                    if kw.arg:
+                        passed[kw.arg] = kw.value
+                # positional arguments map onto the per-sequence parameter order only for `gc` (first)
+                if c.args and isinstance(c.args[0], ast.Name):
+                    passed.setdefault(c.args[0].id, c.args[0])
+                for p_ in sorted(common):
+                    n += 1
+                    v = passed.get(p_)
+                    okp = isinstance(v, ast.Name) and v.id == p_
+                    why = "not passed: the per-sequence default applies" if v is None else f"passed as `{norm(v)}`, not the caller's value"
+                    chk.decide(okp, "R12.19", key(m, q, f"option {p_} forwarded to {target}"), m.loc(c), f"{p_}={p_}", f"`{norm(c)[:70]}`: `{p_}` is {why}")
+    chk.floor("R12.19", 6, "shared options of the delegating collection methods")
+
+
 def run(chk):
+    r12_19(chk)
     r12_18(chk)
     r12_17(chk)
     r12_16(chk)
